@@ -69,6 +69,7 @@ def gen(fam, adds, post, *, simulate=None, depth=None, seed=None, timeout=900, w
         c = json.loads(t[0])
         c["fam"] = "%s/%d/%d%s" % (fam, adds, post, "/sim" if simulate else "")
         out.append(c)
+    run.stdout, run.printed = run.stdout[-4000:], []      # the printed cases are large; keep only the parsed ones
     return out, run
 
 
